@@ -2,6 +2,7 @@
 //! /repo) on symbolic inputs. The same bodies are compiled natively (`--cfg replay` is not needed:
 //! without `cfg(kani)` the `kani` shim in `shim.rs` feeds `any()` from a recorded byte vector) so
 //! that a counterexample can be replayed against the real build.
+#![cfg_attr(kani, feature(allocator_api))]
 #![allow(clippy::all)]
 #![allow(dead_code)]
 #![allow(unused)]
@@ -44,3 +45,5 @@ pub mod c14;
 pub mod c15;
 #[cfg(feature = "c17")]
 pub mod c17;
+#[cfg(feature = "probe")]
+pub mod probe;
